@@ -48,6 +48,10 @@ def judge_solution(spec, scale, pr, res, out, sig, check_closure=True):
     if h.shape != (L, n, n) or C.shape != (L, n, n):
         out.fail(sig + 'array-shapes', 'stored arrays have shapes %s / %s' % (h.shape, C.shape))
         return {}
+    if np.all(np.isfinite(res.x)) and np.all(np.isfinite(res.fun)) and not (np.all(np.isfinite(h)) and np.all(np.isfinite(C))):
+        out.fail(sig + 'reported-residual-not-of-stored-arrays', 'solve reports success with finite x and residual (max|fun|=%.3g) but the stored '
+                 'totalCorr/directCorr contain NaN/inf: they are not those of the returned x' % float(np.max(np.abs(res.fun))))
+        return {}
     H = np.empty_like(h)
     c_real = np.empty_like(C)
     for i in range(n):
